@@ -6,8 +6,8 @@ import time
 
 import z3
 
-Z3_TIMEOUT_MS = int(os.environ.get("PYVC_Z3_TIMEOUT_MS", "20000"))
-CVC5_TIMEOUT_S = int(os.environ.get("PYVC_CVC5_TIMEOUT_S", "20"))
+Z3_TIMEOUT_MS = int(os.environ.get("PYVC_Z3_TIMEOUT_MS", "10000"))
+CVC5_TIMEOUT_S = int(os.environ.get("PYVC_CVC5_TIMEOUT_S", "10"))
 STATS = {"z3": [0, 0.0], "cvc5": [0, 0.0], "structural": [0, 0.0], "frame": [0, 0.0], "sympy": [0, 0.0],
          "flow": [0, 0.0]}
 
@@ -43,6 +43,41 @@ def cvc5_check(smt2, timeout_s):
         os.unlink(path)
 
 
+def _collect_apps(fs, names):
+    """all applications of the named uninterpreted functions occurring (outside binders) in the formulas"""
+    out, seen, stack = {}, set(), list(fs)
+    while stack:
+        e = stack.pop()
+        if not z3.is_app(e) or e.get_id() in seen:
+            continue
+        seen.add(e.get_id())
+        nm = e.decl().name()
+        if nm in names:
+            out[e.get_id()] = e
+        stack.extend(e.children())
+    return list(out.values())
+
+
+def ground_axioms(fs):
+    """Ground instances of the library axiom schemas for the terms that occur in the query (complete for the
+    quantifier-free queries they are used in, and keeps counter-models available):
+      clip(x,l,u):  all_le(l,u) => l <= clip <= u ;  l <= x <= u => clip == x          (np.clip without NaN)
+      dot(v,v) >= 0 ;  a,b >= 0 => fmul(a,b) >= 0                                      (IEEE signs without NaN)"""
+    inst = []
+    for t in _collect_apps(fs, {"clip", "dot", "fmul"}):
+        nm = t.decl().name()
+        if nm == "clip" and t.num_args() == 3:
+            x, lo, hi = t.arg(0), t.arg(1), t.arg(2)
+            le = z3.Function("all_le", x.sort(), x.sort(), z3.BoolSort())
+            inst.append(z3.Implies(le(lo, hi), z3.And(le(lo, t), le(t, hi))))
+            inst.append(z3.Implies(z3.And(le(lo, x), le(x, hi)), t == x))
+        elif nm == "dot" and t.num_args() == 2 and z3.eq(t.arg(0), t.arg(1)):
+            inst.append(t >= 0)
+        elif nm == "fmul" and t.num_args() == 2:
+            inst.append(z3.Implies(z3.And(t.arg(0) >= 0, t.arg(1) >= 0), t >= 0))
+    return inst
+
+
 def discharge(ob, timeout_ms=None, use_cvc5=True):
     t0 = time.time()
     if ob.backend in ("structural", "frame", "flow", "sympy") or z3.is_true(ob.goal) or z3.is_false(ob.goal):
@@ -70,6 +105,7 @@ def discharge(ob, timeout_ms=None, use_cvc5=True):
     s.set("timeout", timeout_ms or Z3_TIMEOUT_MS)
     s.add(*ob.pc)
     s.add(z3.Not(ob.goal))
+    s.add(*ground_axioms(list(ob.pc) + [ob.goal]))
     r = s.check()
     ob.backend = "z3"
     if r == z3.unsat:
@@ -100,5 +136,6 @@ def smt2_of(ob, limit=4000):
     s = z3.Solver()
     s.add(*ob.pc)
     s.add(z3.Not(ob.goal))
+    s.add(*ground_axioms(list(ob.pc) + [ob.goal]))
     txt = s.to_smt2()
     return txt if len(txt) <= limit else txt[:limit] + "\n; ... truncated"
